@@ -75,6 +75,9 @@ End Generic2.
 
 (* ------------------------------------------------------------------ *)
 (* association Joins: the LEFT JOIN's ON clause is the value comparison itself *)
+Theorem joins_model_sql h ps cs : joins_model h ps cs = attach_sql h ps cs.
+Proof. reflexivity. Qed.
+
 Theorem joins_model_attach h ps cs :
   Forall (fun kp => all_zero kp = false) ps ->
   joins_model h ps cs = attach h ps cs.
